@@ -58,6 +58,8 @@ def build_real(spec):
         cent = [pykoop.GridCenters(n_points_per_feature=2),
                 pykoop.UniformRandomCenters(n_centers=spec[2], random_state=spec[1]),
                 pykoop.DataCenters()][spec[1] % 3]
+        if spec[1] % 3 == 1 and spec[1] >= 3:
+            cent = pykoop.GaussianRandomCenters(n_centers=spec[2], random_state=spec[1])
         return pykoop.RbfLiftingFn(rbf=names[(spec[1] * 3 + spec[2]) % 7], centers=cent,
                                    shape=0.5 + 0.25 * spec[1])
     if k == 'kernel':
@@ -69,8 +71,11 @@ def build_real(spec):
              sklearn.preprocessing.MaxAbsScaler()][spec[1] % 3]
         return pykoop.SkLearnLiftingFn(t)
     if k == 'angle':
-        return pykoop.AnglePreprocessor(angle_features=np.array(spec[3] if len(spec) > 3 else spec[1], dtype=int),
-                                        unwrap_inverse=spec[2])
+        feats = np.array(spec[3] if len(spec) > 3 else spec[1], dtype=int)
+        if not spec[2]:
+            # no unwrapping on the way back is the documented default: the argument is left out
+            return pykoop.AnglePreprocessor(angle_features=feats)
+        return pykoop.AnglePreprocessor(angle_features=feats, unwrap_inverse=spec[2])
     if k == 'split':
         return pykoop.SplitPipeline(
             lifting_functions_state=[(f's{next(_uid)}', build_real(s)) for s in spec[1]],
@@ -95,11 +100,17 @@ def n_inputs_form(nu, form):
     return {'int': int(nu), 'np.int64': np.int64(nu), '0-d array': np.array(int(nu))}[form]
 
 
+def episode_flag_form(ep, form):
+    """the same flag as a python bool, a numpy bool or an integer (a truthy / falsy value like any other)"""
+    return {'bool': bool(ep), 'np.bool_': np.bool_(ep), 'int': int(ep)}[form]
+
+
 def fit_case_estimator(est, case, X):
     nu = n_inputs_form(case['nu'], case.get('n_inputs_form', 'int'))
+    ep = episode_flag_form(case['ep'], case.get('episode_flag_form', 'bool'))
     if hasattr(est, 'fit_transformers'):
-        return est.fit_transformers(X, n_inputs=nu, episode_feature=case['ep'])
-    return est.fit(X, n_inputs=nu, episode_feature=case['ep'])
+        return est.fit_transformers(X, n_inputs=nu, episode_feature=ep)
+    return est.fit(X, n_inputs=nu, episode_feature=ep)
 
 
 def build_real_top(chain, regressor=None):
@@ -147,6 +158,8 @@ CHAIN_POOL = [
     # empty or row-wise: the two branches must be zipped episode by episode whatever the arrangement of the rows
     [('split', [('delay', 0, 0)], [])],
     [('split', [('sk', 0)], [('delay', 0, 0)])],
+    # a centre generator that draws several centres for a block of ONE feature (the single input of the input branch)
+    [('split', [], [('rbf', 4, 3)])],
 ]
 POOL_SINGLE_EPISODE = {6}          # indices of CHAIN_POOL that are generated with one episode
 POOL_FAR_EPISODES = {8}            # ... with an episode feature and episodes alternating around -2.6 / +2.6
@@ -281,7 +294,7 @@ def desc(case, **kw):
              cid=int(case.get('cid', 0)), refitted_after_other_layout=bool(case.get('prefit', False)),
              array_presentation=case.get('presentation', 'float'),
              skip_validation=bool(case.get('skip_validation', False)), used_directly=bool(case.get('bare', False)),
-             n_inputs_given_as=case.get('n_inputs_form', 'int'))
+             n_inputs_given_as=case.get('n_inputs_form', 'int'), episode_feature_given_as=case.get('episode_flag_form', 'bool'))
     d.update(kw)
     return d
 
@@ -870,4 +883,82 @@ def leaf_refit(rng, kinds=None):
                     bad.append(dict(what='an estimator refitted with a different state/input split differs from a '
                                          'fresh one (stale fitted state)', stage=repr(spec), n_inputs_first=nu1,
                                     n_inputs_second=nu2, episode_feature=ep, X=X.tolist(), **info))
+    return n, bad
+
+
+# ------------------------------------------------------------ kernel approximations that are not in the model's pool
+def extra_kernel_cases(rng):
+    """KernelApproxLiftingFn around estimators whose number of features is decided at fit time (scikit-learn's Nystroem with
+    more components requested than there are samples, pykoop's random binning with several components) or taken from a
+    scikit-learn sampler: bare and followed by a delay stage in a pipeline, with and without inputs, two episodes.
+    Yields (description, estimator factory, X, n_inputs)."""
+    import sklearn.kernel_approximation as ska
+    kinds = [('Nystroem(n_components=100) on fewer samples', lambda: ska.Nystroem(n_components=100, random_state=0)),
+             ('RBFSampler(n_components=5)', lambda: ska.RBFSampler(n_components=5, random_state=0)),
+             ('RandomBinningKernelApprox(n_components=3)', lambda: pykoop.RandomBinningKernelApprox(n_components=3, random_state=1)),
+             ('RandomBinningKernelApprox(n_components=1)', lambda: pykoop.RandomBinningKernelApprox(n_components=1, random_state=2))]
+    out = []
+    for name, mk in kinds:
+        for nu in (0, 1):
+            for wrapped in (False, True):
+                order = [0] * 7 + [1] * 6
+                X = real_data(rng, order, 2, nu, True)
+
+                def make(mk=mk, wrapped=wrapped):
+                    lf = pykoop.KernelApproxLiftingFn(kernel_approx=mk())
+                    if not wrapped:
+                        return lf
+                    return pykoop.KoopmanPipeline(lifting_functions=[('k', lf), ('d', pykoop.DelayLiftingFn(1, 1))],
+                                                  regressor=pykoop.DataRegressor())
+                out.append((f'{name}, n_inputs={nu}, ' + ('then DelayLiftingFn(1, 1) in a KoopmanPipeline' if wrapped else 'used directly'),
+                            make, X, nu))
+    return out
+
+
+def fit_any(est, X, nu, ep=True):
+    if hasattr(est, 'fit_transformers'):
+        return est.fit_transformers(X, n_inputs=nu, episode_feature=ep)
+    return est.fit(X, n_inputs=nu, episode_feature=ep)
+
+
+def extra_kernel_checks(rng, which):
+    """which: 'roundtrip' (C01), 'names' (C19), 'noninterference' (C02), 'dims' (C04).  Returns (n, bad)."""
+    bad = []
+    n = 0
+    for name, make, X, nu in extra_kernel_cases(rng):
+        n += 1
+        try:
+            est = fit_any(make(), X, nu)
+            Xt = est.transform(X)
+            if which == 'roundtrip':
+                Xi = est.inverse_transform(Xt)
+                # (equal numbers of state and input delays: the delay stage gives every sample back)
+                want = np.vstack([X[X[:, 0] == l] for l in sorted(set(X[:, 0].tolist()))])
+                if Xi.shape != want.shape or not close(Xi, want, 1e-9):
+                    bad.append(dict(what='inverse_transform(transform(X)) differs from X', estimator=name,
+                                    got_shape=list(Xi.shape), want_shape=list(want.shape), X=X.tolist()))
+            elif which == 'names':
+                for kw in (dict(), dict(symbols_only=True), dict(format='latex')):
+                    names = est.get_feature_names_out(**kw)
+                    if len(names) != Xt.shape[1] or len(set(names.tolist())) != len(names):
+                        bad.append(dict(what='get_feature_names_out does not give one distinct name per lifted column', estimator=name,
+                                        n_names=int(len(names)), n_columns=int(Xt.shape[1]), arguments=str(kw), X=X.tolist()))
+                        break
+            elif which == 'dims':
+                if Xt.shape[1] != est.n_features_out_ or est.n_states_out_ + est.n_inputs_out_ + 1 != Xt.shape[1]:
+                    bad.append(dict(what='declared output dimensions do not match the transformed array', estimator=name,
+                                    produced=int(Xt.shape[1]), n_features_out=int(est.n_features_out_),
+                                    n_states_out=int(est.n_states_out_), n_inputs_out=int(est.n_inputs_out_), X=X.tolist()))
+            elif which == 'noninterference' and nu > 0:
+                Xb = np.array(X, copy=True)
+                Xb[:, -nu:] = Xb[:, -nu:] + rng.uniform(0.3, 0.9, size=(X.shape[0], nu))
+                a = Xt[:, :1 + est.n_states_out_]
+                b = est.transform(Xb)[:, :1 + est.n_states_out_]
+                ls = est.lift_state(X[:, :X.shape[1] - nu])
+                if not close(a, b, 1e-12):
+                    bad.append(dict(what='changing only the input columns changed the lifted-state block', estimator=name, X=X.tolist()))
+                elif ls.shape != a.shape or not close(ls, a, 1e-12):
+                    bad.append(dict(what='lift_state differs from the state block of transform', estimator=name, X=X.tolist()))
+        except Exception as e:  # noqa
+            bad.append(dict(what=f'implementation raised {type(e).__name__}: {e}'[:400], estimator=name, X=X.tolist()))
     return n, bad
